@@ -12,9 +12,10 @@ const P: &str = "C08";
 enum Kind {
     /// from_registry / setup: observed identity (instance index) if known
     Lookup { res: Option<usize>, known: bool },
+    /// `prev` = identity of the returned previous entry when it could be learnt (it answered a call)
     Register { x: usize, ok: bool, prev_some: bool },
-    Replace { x: usize, prev_some: bool },
-    Unregister { prev_some: bool },
+    Replace { x: usize, prev_some: bool, prev: Option<usize> },
+    Unregister { prev_some: bool, prev: Option<usize> },
     TryLookup { some: bool, res: Option<usize> },
     AlreadyRunning { res: Option<bool> },
     Term { i: usize },
@@ -81,13 +82,13 @@ impl<'a> Search<'a> {
                     out.push(St { reg: Some(*x as u8), ..st });
                 }
             }
-            Kind::Replace { x, prev_some } => {
-                if *prev_some == st.reg.is_some() {
+            Kind::Replace { x, prev_some, prev } => {
+                if *prev_some == st.reg.is_some() && prev.map(|p| st.reg == Some(p as u8)).unwrap_or(true) {
                     out.push(St { reg: Some(*x as u8), ..st });
                 }
             }
-            Kind::Unregister { prev_some } => {
-                if *prev_some == st.reg.is_some() {
+            Kind::Unregister { prev_some, prev } => {
+                if *prev_some == st.reg.is_some() && prev.map(|p| st.reg == Some(p as u8)).unwrap_or(true) {
                     out.push(St { reg: None, ..st });
                 }
             }
@@ -218,9 +219,19 @@ pub fn check(cx: &Cx, rep: &mut Report) {
                 }
                 (OpK::Replace, Some(Res::Prev { prev, .. })) => {
                     let Some(x) = slot_obj.get(&(o.c, o.slot)).copied().and_then(idx_of) else { continue };
-                    Kind::Replace { x, prev_some: prev.is_some() }
+                    let pid = prev.and_then(|s| slot_obj.get(&(o.c, s as u16)).copied()).and_then(idx_of);
+                    if pid.is_some() {
+                        rep.premise("C08.ops.previous_entry_identified");
+                    }
+                    Kind::Replace { x, prev_some: prev.is_some(), prev: pid }
                 }
-                (OpK::Unregister, Some(Res::Prev { prev, .. })) => Kind::Unregister { prev_some: prev.is_some() },
+                (OpK::Unregister, Some(Res::Prev { prev, .. })) => {
+                    let pid = prev.and_then(|s| slot_obj.get(&(o.c, s as u16)).copied()).and_then(idx_of);
+                    if pid.is_some() {
+                        rep.premise("C08.ops.previous_entry_identified");
+                    }
+                    Kind::Unregister { prev_some: prev.is_some(), prev: pid }
+                }
                 (OpK::TryFromRegistry, Some(Res::Handle { slot, some: true })) => Kind::TryLookup { some: true, res: slot_obj.get(&(o.c, *slot)).copied().and_then(idx_of) },
                 (OpK::TryFromRegistry, Some(Res::NoneVal)) => Kind::TryLookup { some: false, res: None },
                 (OpK::AlreadyRunning, Some(Res::OptBool(r))) => Kind::AlreadyRunning { res: *r },
